@@ -190,6 +190,12 @@ func runC11(c *core.Ctx) {
 		if err := A.A.GatherCandidates(); err == nil {
 			cycleUfrag = append(cycleUfrag, A.Ufrag)
 		}
+		if t.Bias(1, 4, "back-to-back-gather") {
+			// a second call before the first cycle has advanced the gathering state: refused, or it supersedes
+			// the first cycle - either way the generation still gets one end-of-candidates, after its candidates
+			_ = A.A.GatherCandidates()
+			c.Fault("back-to-back-gather")
+		}
 		_ = B.A.GatherCandidates()
 	}
 	// API calls that go through A's loop are only issued while nothing is parked (a parked Enqueue site
